@@ -14,6 +14,7 @@
 #include "../lib/runners.hpp"
 #include "../lib/harness.hpp"
 
+#include <dirent.h>
 #include <dlfcn.h>
 #include <fcntl.h>
 #include <signal.h>
@@ -23,7 +24,9 @@
 #include <sys/wait.h>
 #include <unistd.h>
 
+#include <cerrno>
 #include <fstream>
+#include <functional>
 #include <iostream>
 
 namespace ip
@@ -45,6 +48,11 @@ std::vector<Call>* recorded = nullptr;
 long crash_at = -1;           // position at which to die (-1: never)
 long prefix = -1;             // for writes: bytes to let through before dying (-1: die on entry)
 long short_at = -1;           // position of a short write (non fatal)
+long fail_at = -1;            // position of a write that fails with an error (non fatal)
+int fail_mode = 0;            // 0: that write only (EIO); 1: it and every later write of the same callback (ENOSPC);
+                              // 2: half of it goes through, then as 1 (file size limit)
+int fail_iteration = -1;      // iteration in which the error struck (-1: not yet)
+bool kill_after_callback = false; // die when the callback in which the error struck returns
 long position = 0;            // tracked calls so far
 int iteration = 0;            // set by the workload's callback wrapper
 bool fds[4096];
@@ -62,6 +70,20 @@ long on_call(Kind k, std::size_t bytes)
         if (k == WRITE && prefix >= 0) { return prefix; }
         ::raise(SIGKILL);
     }
+    return -2;
+}
+
+// write errors: returns -2 when this write is not affected, otherwise the number of bytes to let through before
+// reporting the error (0: none; the call then returns -1 with errno set, or the short count if it is positive)
+long on_write_error(std::size_t n)
+{
+    if (fail_at < 0) { return -2; }
+    if (position == fail_at)
+    {
+        fail_iteration = iteration;
+        return fail_mode == 2 ? static_cast<long>(n / 2) : 0;
+    }
+    if (fail_mode != 0 && fail_iteration >= 0 && fail_iteration == iteration) { return 0; }
     return -2;
 }
 
@@ -128,6 +150,7 @@ ssize_t write(int fd, void const* buf, size_t n)
     static auto real = ip::next<ssize_t (*)(int, void const*, size_t)>("write");
     if (!ip::tracked_fd(fd)) { return real(fd, buf, n); }
     bool const shorten = ip::position == ip::short_at && n > 1;
+    long const err = ip::on_write_error(n);
     long const through = ip::on_call(ip::WRITE, n);
     if (through >= 0)
     {
@@ -135,6 +158,8 @@ ssize_t write(int fd, void const* buf, size_t n)
         if (k) { (void) real(fd, buf, k); }
         ::raise(SIGKILL);
     }
+    if (err > 0) { return real(fd, buf, static_cast<size_t>(err)); }
+    if (err == 0) { errno = ip::fail_mode == 0 ? EIO : ENOSPC; return -1; }
     if (shorten) { return real(fd, buf, n / 2); }
     return real(fd, buf, n);
 }
@@ -146,8 +171,11 @@ ssize_t writev(int fd, struct iovec const* iov, int cnt)
     if (!ip::tracked_fd(fd)) { return real(fd, iov, cnt); }
     size_t total = 0;
     for (int i = 0; i != cnt; ++i) { total += iov[i].iov_len; }
-    bool const shorten = ip::position == ip::short_at && total > 1;
+    bool shorten = ip::position == ip::short_at && total > 1;
+    long const err = ip::on_write_error(total);
     long const through = ip::on_call(ip::WRITE, total);
+    if (through < 0 && err == 0) { errno = ip::fail_mode == 0 ? EIO : ENOSPC; return -1; }
+    if (through < 0 && err > 0) { shorten = true; }
     if (through >= 0 || shorten)
     {
         size_t left = through >= 0 ? static_cast<size_t>(through) : total / 2;
@@ -244,26 +272,34 @@ void put(std::string const& path, std::string const& content)
     if (f) { std::fwrite(content.data(), 1, content.size(), f); std::fclose(f); }
 }
 
-void clean_dir(std::string const& dir, std::string const& file)
+void clean_dir(std::string const& dir, std::string const&)
 {
-    ::unlink(file.c_str());
-    ::unlink((file + ".tmp").c_str());
-    ::unlink((file + "~").c_str());
+    // the scratch directory belongs to this case: remove whatever a (possibly changed) tree left in it
+    if (DIR* d = ::opendir(dir.c_str()))
+    {
+        while (struct dirent* e = ::readdir(d))
+        {
+            std::string const name = e->d_name;
+            if (name != "." && name != "..") { ::unlink((dir + name).c_str()); }
+        }
+        ::closedir(d);
+    }
     ::mkdir(dir.c_str(), 0755);
 }
 
 template <typename T, typename R>
-void workload(vf::Ctx& c, vf::RunCfg<T> const& cfg, std::vector<std::size_t> const& calls, std::size_t k0, char const* engine_name, bool verbose)
+void workload(vf::Ctx& c, vf::RunCfg<T> const& cfg, std::vector<std::size_t> const& calls, std::size_t k0, char const* engine_name, bool verbose, std::string const& fname)
 {
     // the verbose writing mode prints to std::cout: silence it for the whole workload (children inherit the redirection)
     struct Quiet : std::streambuf { int overflow(int ch) override { return ch; } std::streamsize xsputn(char const*, std::streamsize n) override { return n; } } quiet;
     struct Restore { std::streambuf* old; ~Restore() { std::cout.rdbuf(old); } } restore{std::cout.rdbuf(&quiet)};
     using Chk = typename R::Chk;
     std::string const dir = (vf::files().cur.empty() ? std::string("/tmp/vf-c18-") + std::to_string(::getpid()) : vf::files().cur) + ".c18d/";
-    std::string const file = dir + "run.chkpt";
+    std::string const file = dir + fname;
     clean_dir(dir, file);
     auto go = [](Chk const&) { return true; };
     std::size_t const n = calls.size();
+    std::function<void(int)> after_callback;
 
     // reference texts after 0..n iterations (k0 of them belong to an "earlier run" that left its file behind)
     std::vector<std::string> ref;
@@ -282,7 +318,13 @@ void workload(vf::Ctx& c, vf::RunCfg<T> const& cfg, std::vector<std::size_t> con
     auto run_under_test = [&]() {
         ip::iteration = static_cast<int>(k0);
         hep::callback<Chk> inner(verbose ? hep::callback_mode::verbose_and_write_chkpt : hep::callback_mode::silent_and_write_chkpt, file, T(0));
-        auto cb = [inner](Chk const& k) mutable { ++ip::iteration; return inner(k); }; // calls made by the callback of iteration i carry i
+        auto cb = [&, inner](Chk const& k) mutable { // calls made by the callback of iteration i carry i
+            ++ip::iteration;
+            bool const more = inner(k);
+            if (ip::kill_after_callback && ip::fail_iteration == ip::iteration) { ::raise(SIGKILL); }
+            if (after_callback) { bool const a = ip::active; ip::active = false; after_callback(ip::iteration); ip::active = a; }
+            return more;
+        };
         return R::run(cfg, earlier, rest, cb);
     };
     auto prepare_files = [&]() {
@@ -312,7 +354,7 @@ void workload(vf::Ctx& c, vf::RunCfg<T> const& cfg, std::vector<std::size_t> con
         }
     }
     c.desc << vf::type_name<T>::get() << ' ' << engine_name << ' ' << cfg.describe() << " calls=" << vf::show(calls) << " earlier-run-iterations=" << k0
-           << (verbose ? " verbose_and_write_chkpt" : " silent_and_write_chkpt") << " tracked-calls=" << seq.size() << " final-size=" << ref[n].size();
+           << (verbose ? " verbose_and_write_chkpt" : " silent_and_write_chkpt") << " file-name=" << fname << " tracked-calls=" << seq.size() << " final-size=" << ref[n].size();
 
     std::size_t crashes = 0, inside = 0;
     auto check_after = [&](long pos, long pre, char const* kind) {
@@ -378,7 +420,7 @@ void workload(vf::Ctx& c, vf::RunCfg<T> const& cfg, std::vector<std::size_t> con
             pid_t const pid = ::fork();
             if (pid == 0)
             {
-                ip::position = 0; ip::crash_at = pos; ip::prefix = pre; ip::short_at = -1; ip::counting = false; ip::recorded = nullptr;
+                ip::position = 0; ip::crash_at = pos; ip::prefix = pre; ip::short_at = -1; ip::fail_at = -1; ip::counting = false; ip::recorded = nullptr;
                 ip::active = true;
                 (void) run_under_test();
                 ::_exit(42); // the crash point was not reached
@@ -408,9 +450,67 @@ void workload(vf::Ctx& c, vf::RunCfg<T> const& cfg, std::vector<std::size_t> con
         VF_CHECK(c, ex && got == ref[n] && vf::text_of(out) == ref[n], "C18:short-write", "a short write at tracked call " << pos << " left " << (ex ? "a file that is not the final checkpoint" : "no file"));
         ++c.sub;
     }
-    ::unlink(file.c_str());
-    ::unlink((file + ".tmp").c_str());
+    // write errors (disk full, quota, I/O error): not fatal either. (a) the process is killed right after the callback in
+    // which the error struck: the file must be the previous or the new complete checkpoint, as after any other kill;
+    // (b) the run goes on: after every callback the file is the checkpoint of that iteration or unchanged, never a
+    // fragment, and the results do not depend on the error
+    std::size_t errors = 0;
+    for (long pos = 0; pos != static_cast<long>(seq.size()); ++pos)
+    {
+        if (seq[pos].kind != ip::WRITE || seq[pos].bytes < 1) { continue; }
+        for (int fm = 0; fm != 3; ++fm)
+        {
+            if (fm == 2 && seq[pos].bytes < 2) { continue; }
+            char const* const what = fm == 0 ? "write error (EIO, once), kill after the callback" : fm == 1 ? "write error (ENOSPC until the callback returns), kill after the callback"
+                : "write error (half of the bytes accepted, then ENOSPC), kill after the callback";
+            prepare_files();
+            pid_t const pid = ::fork();
+            if (pid == 0)
+            {
+                ip::position = 0; ip::crash_at = -1; ip::prefix = -1; ip::short_at = -1; ip::counting = false; ip::recorded = nullptr;
+                ip::fail_at = pos; ip::fail_mode = fm; ip::fail_iteration = -1; ip::kill_after_callback = true;
+                ip::active = true;
+                (void) run_under_test();
+                ::_exit(42);
+            }
+            int status = 0;
+            ::waitpid(pid, &status, 0);
+            VF_CHECK(c, WIFSIGNALED(status) && WTERMSIG(status) == SIGKILL, "C18:harness", "child for the write error at call " << pos << " did not reach it (status " << status << ")");
+            ++errors;
+            ++c.sub;
+            check_after(pos, -1, what);
+
+            // (b) in this process, without a kill
+            prepare_files();
+            bool ex0 = false;
+            std::string last = slurp(file, ex0);
+            bool last_exists = ex0, sane = true;
+            int bad_iteration = 0;
+            after_callback = [&](int it) {
+                bool e = false;
+                std::string const now = slurp(file, e);
+                bool const is_new = e && now == ref[static_cast<std::size_t>(it)];
+                bool const unchanged = e == last_exists && now == last;
+                if (sane && !is_new && !unchanged) { sane = false; bad_iteration = it; }
+                last = now; last_exists = e;
+            };
+            ip::position = 0; ip::crash_at = -1; ip::prefix = -1; ip::short_at = -1; ip::counting = false; ip::recorded = nullptr;
+            ip::fail_at = pos; ip::fail_mode = fm; ip::fail_iteration = -1; ip::kill_after_callback = false;
+            ip::active = true;
+            Chk const out = run_under_test();
+            ip::active = false;
+            ip::fail_at = -1; ip::fail_iteration = -1;
+            after_callback = nullptr;
+            VF_CHECK(c, sane, "C18:write-error-leaves-fragment", "a write error at tracked call " << pos << " (mode " << fm << "): after the callback of iteration " << bad_iteration
+                << " the file is neither the checkpoint of that iteration nor what was there before");
+            VF_CHECK(c, vf::text_of(out) == ref[n], "C18:write-error-changes-run", "a write error at tracked call " << pos << " changed the returned checkpoint");
+            ++c.sub;
+        }
+    }
+    clean_dir(dir, file);
     ::rmdir(dir.c_str());
+    if (errors) { c.label("write-errors"); }
+    if (fname != "run.chkpt") { c.label("file-name:" + fname); }
     if (inside) { c.label("crash-with-complete-file-at-stake"); }
     if (k0) { c.label("file-from-earlier-run"); }
     if (ref[n].size() > 9000) { c.label("larger-than-stream-buffer"); }
@@ -432,14 +532,17 @@ void run_t(vf::Ctx& c)
     std::size_t const k0 = t.flag() ? t.pick(n) : 0;
     bool const small_engine = t.flag();
     bool const verbose = t.pick(3) == 0;
+    // file names: with / without an extension, several dots, hidden, and names that end like a temporary file would
+    static char const* const names[] = {"run.chkpt", "run", "run.tmp", "a.b.c", ".hidden", "run.chkpt.tmp", "tmp", "run.chkpt~"};
+    std::string const fname = names[t.pick(3) == 0 ? 1 + t.pick(7) : 0];
     if (small_engine)
     {
         using E = std::minstd_rand;
         switch (cfg.kind)
         {
-        case vf::PLAIN: workload<T, vf::Plain<T, E>>(c, cfg, calls, k0, "minstd_rand", verbose); break;
-        case vf::VEGAS: workload<T, vf::Vegas<T, E>>(c, cfg, calls, k0, "minstd_rand", verbose); break;
-        default: workload<T, vf::Multi<T, E>>(c, cfg, calls, k0, "minstd_rand", verbose); break;
+        case vf::PLAIN: workload<T, vf::Plain<T, E>>(c, cfg, calls, k0, "minstd_rand", verbose, fname); break;
+        case vf::VEGAS: workload<T, vf::Vegas<T, E>>(c, cfg, calls, k0, "minstd_rand", verbose, fname); break;
+        default: workload<T, vf::Multi<T, E>>(c, cfg, calls, k0, "minstd_rand", verbose, fname); break;
         }
     }
     else
@@ -447,9 +550,9 @@ void run_t(vf::Ctx& c)
         using E = std::mt19937;
         switch (cfg.kind)
         {
-        case vf::PLAIN: workload<T, vf::Plain<T, E>>(c, cfg, calls, k0, "mt19937", verbose); break;
-        case vf::VEGAS: workload<T, vf::Vegas<T, E>>(c, cfg, calls, k0, "mt19937", verbose); break;
-        default: workload<T, vf::Multi<T, E>>(c, cfg, calls, k0, "mt19937", verbose); break;
+        case vf::PLAIN: workload<T, vf::Plain<T, E>>(c, cfg, calls, k0, "mt19937", verbose, fname); break;
+        case vf::VEGAS: workload<T, vf::Vegas<T, E>>(c, cfg, calls, k0, "mt19937", verbose, fname); break;
+        default: workload<T, vf::Multi<T, E>>(c, cfg, calls, k0, "mt19937", verbose, fname); break;
         }
     }
 }
